@@ -710,8 +710,20 @@ func (w *World) YieldParked(node string) bool {
 	w.mu.Lock()
 	defer w.mu.Unlock()
 	for k, g := range w.gates {
-		if g.Class == "yield" && strings.Contains(k, "|"+node+">") {
+		if g.Class != "yield" {
+			continue
+		}
+		if strings.Contains(k, "|"+node+">") {
 			return true
+		}
+		// a yield named after a request rather than a node (task workers): whose it is
+		// cannot be told from the key, so it counts for every node
+		parts := strings.SplitN(k, "|", 3)
+		if len(parts) == 3 {
+			owner := strings.SplitN(parts[2], ">", 2)[0]
+			if _, isNode := w.Nodes[owner]; !isNode {
+				return true
+			}
 		}
 	}
 	return false
